@@ -158,16 +158,16 @@ theorem inv_commitStep {h0 : Bool} {s s' : State} (hi : Inv h0 s) (hs : step s .
       have := c k
       simp only [List.mem_append, List.mem_cons] at this ⊢
       constructor
-      · rintro (rfl | h | h)
+      · rintro ((h | h) | h)
         · omega
         · have := this.mp (Or.inl h); omega
         · have := this.mp (Or.inr h); omega
       · intro hk
         by_cases hkc : k = s.committed
-        · exact Or.inl hkc
+        · exact Or.inl (Or.inl hkc)
         · rcases this.mpr (by omega) with h | h
-          · exact Or.inr (Or.inl h)
-          · exact Or.inr (Or.inr h)
+          · exact Or.inl (Or.inr h)
+          · exact Or.inr h
     · exact snaps_mark s _ touchCommit rfl (fun σ h => sinv_touch s _ σ _ (Or.inl rfl) rfl rfl h) hsn
   · cases hs
 
@@ -207,7 +207,9 @@ theorem inv_compactStep {h0 : Bool} {s s' : State} (hi : Inv h0 s) (hs : step s 
   · rename_i hwi
     cases hs
     refine ⟨hh, ?_, ?_⟩
-    · simp only [WInv, hwi, markAll] at hw ⊢; exact hw
+    · simp only [WInv, hwi, markAll] at hw ⊢
+      obtain ⟨a, b, c, d, e, f⟩ := hw
+      exact ⟨a, b, c, d, e, f, trivial⟩
     · exact snaps_mark s _ touchCompact rfl (fun σ h => sinv_touch s _ σ _ (Or.inr rfl) rfl rfl h) hsn
   · rename_i hwi
     cases hs
@@ -219,5 +221,117 @@ theorem inv_compactStep {h0 : Bool} {s s' : State} (hi : Inv h0 s) (hs : step s 
       · intro k; have := d k; simpa using this
     · exact snaps_mark s _ touchCompact rfl (fun σ h => sinv_touch s _ σ _ (Or.inr rfl) rfl rfl h) hsn
   · cases hs
+
+theorem snaps_set (s : State) (j : Nat) (x : Option Snap)
+    (h : ∀ i σ, s.snaps i = some σ → SInv s σ) (hx : ∀ σ, x = some σ → SInv s σ) :
+    ∀ i σ, (setSnap s j x).snaps i = some σ → SInv (setSnap s j x) σ := by
+  intro i σ hi
+  simp only [setSnap] at hi
+  by_cases hij : i = j
+  · simp [hij] at hi; exact hx σ hi
+  · simp [hij] at hi; exact h i σ hi
+
+theorem inv_readStep {h0 : Bool} {s s' : State} (j : Nat) (hi : Inv h0 s) (hs : step s (.readStep j) = some s') :
+    Inv h0 s' := by
+  obtain ⟨hh, hw, hsn⟩ := hi
+  simp only [step] at hs
+  split at hs
+  · -- scanI2e
+    cases hs
+    refine ⟨hh, hw, snaps_set s j _ hsn ?_⟩
+    intro σ hσ
+    cases hσ
+    refine ⟨by simp [newSnap], by simp [newSnap], ?_, by simp [newSnap]⟩
+    intro _ hc
+    simp only [Snap.clean, newSnap] at hc
+    have hidle : s.w = .idle := by
+      cases hwc : s.w with
+      | idle => rfl
+      | commit k => simp [hwc, isCommit] at hc
+      | compact k => simp [hwc, isCompact] at hc
+    exact ⟨hidle, rfl, rfl, by simp [newSnap], by simp [newSnap], by simp [newSnap]⟩
+  · rename_i σ hsj
+    have hσ := hsn j σ hsj
+    obtain ⟨h1, h5, hinc, hdone⟩ := hσ
+    split at hs
+    · rename_i hpc
+      cases hs
+      refine ⟨hh, hw, snaps_set s j _ hsn ?_⟩
+      intro σ' hσ'; cases hσ'
+      refine ⟨by simp, by simp, ?_, by simp⟩
+      intro _ hc
+      obtain ⟨a, b, c, d, e, f⟩ := hinc (by omega) hc
+      exact ⟨a, b, c, fun _ => rfl, fun h => by simp at h, fun h => by simp at h⟩
+    · rename_i hpc
+      cases hs
+      refine ⟨hh, hw, snaps_set s j _ hsn ?_⟩
+      intro σ' hσ'; cases hσ'
+      refine ⟨by simp, by simp, ?_, by simp⟩
+      intro _ hc
+      obtain ⟨a, b, c, d, e, f⟩ := hinc (by omega) hc
+      exact ⟨a, b, c, fun _ => d (by omega), fun _ => rfl, fun h => by simp at h⟩
+    · rename_i hpc
+      cases hs
+      refine ⟨hh, hw, snaps_set s j _ hsn ?_⟩
+      intro σ' hσ'; cases hσ'
+      refine ⟨by simp, by simp, ?_, by simp⟩
+      intro _ hc
+      obtain ⟨a, b, c, d, e, f⟩ := hinc (by omega) hc
+      exact ⟨a, b, c, fun _ => d (by omega), fun _ => e (by omega), fun _ => rfl⟩
+    · -- readRoots: the acquisition completes
+      rename_i hpc
+      cases hs
+      refine ⟨hh, hw, snaps_set s j _ hsn ?_⟩
+      intro σ' hσ'; cases hσ'
+      refine ⟨by simp, by simp, by simp, ?_⟩
+      intro _ hc
+      obtain ⟨hidle, hlo, hi2e, hruns, hsegs, hlab⟩ := hinc (by omega) hc
+      have hruns := hruns (by omega); have hsegs := hsegs (by omega); have hlab := hlab (by omega)
+      simp only [WInv, hidle] at hw
+      obtain ⟨a, b, c, d, e, f⟩ := hw
+      refine ⟨by simp; omega, by simp; omega, by simp [hlo], ?_, ?_, ?_⟩
+      · intro k; simp only [hruns, hsegs, hlo]; exact c k
+      · intro k; simp only [hlo]; exact f k
+      · intro _ k
+        simp only [hruns, hlo]
+        cases hr : s.root with
+        | false =>
+          have := e hr
+          have hc' := c k
+          simp only [this, List.append_nil] at hc'
+          simpa using hc'
+        | true =>
+          have hc' := c k
+          simp only [List.mem_append] at hc' ⊢
+          simp only [if_true, d k]; exact hc'
+    · cases hs
+
+theorem inv_dropSnap {h0 : Bool} {s s' : State} (j : Nat) (hi : Inv h0 s) (hs : step s (.dropSnap j) = some s') :
+    Inv h0 s' := by
+  obtain ⟨hh, hw, hsn⟩ := hi
+  simp only [step] at hs
+  split at hs
+  · cases hs; exact ⟨hh, hw, snaps_set s j none hsn (by intro σ h; cases h)⟩
+  · cases hs
+
+theorem reach_inv {h0 : Bool} {s : State} (h : Reach (init h0) s) : Inv h0 s := by
+  induction h with
+  | refl => exact inv_init h0
+  | step l _ hs ih =>
+    cases l with
+    | commitStep => exact inv_commitStep ih hs
+    | compactStep => exact inv_compactStep ih hs
+    | readStep j => exact inv_readStep j ih hs
+    | dropSnap j => exact inv_dropSnap j ih hs
+
+theorem reach_of_runTrace {s0 s s' : State} (tr : List Label)
+    (h0 : Reach s0 s) (h : runTrace s tr = some s') : Reach s0 s' := by
+  induction tr generalizing s with
+  | nil => simp [runTrace] at h; subst h; exact h0
+  | cons l ls ih =>
+    simp only [runTrace] at h
+    split at h
+    · rename_i s1 hs1; exact ih (Reach.step l h0 hs1) h
+    · cases h
 
 end Nervus.SnapLTS
